@@ -51,6 +51,14 @@ class StmtMixin:
     def st_Expr(self, node, st):
         if isinstance(node.value, ast.Constant):
             return [(st, NORMAL)]          # docstring
+        if isinstance(node.value, ast.Yield):
+            # a @contextmanager generator under contract: the with-body is assumed to have no effect on
+            # the state the contract talks about and to end normally (the exceptional continuation is
+            # covered where a property asks for it, see C09)
+            self.lib.use("generator under contract: at `yield` the with-body runs; it is assumed effect-free and to end normally")
+            if node.value.value is not None:
+                return self._lift(self.ev(node.value.value, st), lambda s, v: None)
+            return [(st, NORMAL)]
         return self._lift(self.ev(node.value, st), lambda s, v: None)
 
     def st_Pass(self, node, st):
